@@ -144,11 +144,11 @@ func authCredential(p *Program, fd *ast.FuncDecl) (cred string, why string) {
 }
 
 // recogniseOrCombinator checks authMiddlewareOr and middlewares.
-func recogniseOrCombinator(p *Program) (ok bool, why string) {
+func recogniseOrCombinator(p *Program, m *RouterModel) (ok bool, why string) {
 	info := p.Pkg.TypesInfo
-	fd := p.funcDecl("", "authMiddlewareOr")
+	fd := declOfObj(p, m.AuthOrFn)
 	if fd == nil {
-		return false, "authMiddlewareOr not found"
+		return false, "auth combinator used by the route leaves not found"
 	}
 	c := &rmCtx{p: p, info: info}
 	ps := paramObjs(info, fd)
@@ -253,16 +253,28 @@ func recogniseOrCombinator(p *Program) (ok bool, why string) {
 		return false, "authMiddlewareOr: rejection status is not 401"
 	}
 	// middlewares(h, ms...) wraps each once
-	md := p.funcDecl("", "middlewares")
+	md := declOfObj(p, m.WrapFn)
 	if md == nil {
-		return false, "middlewares() not found"
+		return false, "wrap helper used by the route leaves not found"
 	}
 	mps := paramObjs(info, md)
 	if len(mps) != 2 || len(md.Body.List) != 2 {
 		return false, "middlewares(): unexpected shape"
 	}
 	fs, okfs := md.Body.List[0].(*ast.ForStmt)
-	if !okfs || !reverseLoopOver(c, fs, mps[0], mps[1], "Middleware") {
+	// the method the wrap helper calls on each element, and the type the combinator returns
+	wrapMethod := ""
+	if sig, ok := m.WrapFn.Type().(*types.Signature); ok && sig.Variadic() {
+		if sl, ok := sig.Params().At(sig.Params().Len() - 1).Type().(*types.Slice); ok {
+			if it, ok := sl.Elem().Underlying().(*types.Interface); ok && it.NumMethods() == 1 {
+				wrapMethod = it.Method(0).Name()
+			}
+		}
+	}
+	if wrapMethod == "" {
+		return false, "wrap helper does not take a variadic list of a one-method interface"
+	}
+	if !okfs || !reverseLoopOver(c, fs, mps[0], mps[1], wrapMethod) {
 		return false, "middlewares(): not the reverse loop `for i := len(ms)-1; i >= 0; i-- { h = ms[i].Middleware(h) }`"
 	}
 	mr, okmr := md.Body.List[1].(*ast.ReturnStmt)
@@ -270,7 +282,13 @@ func recogniseOrCombinator(p *Program) (ok bool, why string) {
 		return false, "middlewares(): does not return the wrapped handler"
 	}
 	// MiddlewareFunc.Middleware(next) returns m(next)
-	mf := p.funcDecl("MiddlewareFunc", "Middleware")
+	retName := ""
+	if sig, ok := m.AuthOrFn.Type().(*types.Signature); ok && sig.Results().Len() == 1 {
+		if n, ok := sig.Results().At(0).Type().(*types.Named); ok {
+			retName = n.Obj().Name()
+		}
+	}
+	mf := p.funcDecl(retName, wrapMethod)
 	if mf == nil || len(mf.Body.List) != 1 {
 		return false, "MiddlewareFunc.Middleware not found / unexpected"
 	}
@@ -383,8 +401,8 @@ func runC11(r *Report) {
 			cred[f.Name()] = cr
 		}
 		_ = info
-		if anyAuth || p.funcDecl("", "authMiddlewareOr") != nil {
-			ok, why := recogniseOrCombinator(p)
+		if anyAuth || m.AuthOrFn != nil {
+			ok, why := recogniseOrCombinator(p, m)
 			if ok {
 				r.OK("C11/or-combinator", p.Name+":authMiddlewareOr", "", "")
 			} else {
